@@ -214,9 +214,9 @@ Lemma unordered_any_key maxlen hk k : map_key maxlen false hk k = Some (hk k).
 Proof. reflexivity. Qed.
 
 (** partial walks need an ordered store *)
-Lemma unordered_partial_rejected maxlen hk jv (S : Type) (step : S -> bop -> S * result) s c off n desc :
-  kv_step maxlen false hk jv step s (UWalkPartial off n desc) = (s, RErr EUnordered) /\
-  kv_step maxlen false hk jv step s (UWalkPartialClass c off n desc) = (s, RErr EUnordered).
+Lemma unordered_partial_rejected maxlen hk jv (S : Type) (step : S -> bop -> S * result) s c off n desc d :
+  kv_step maxlen false hk jv step s (UWalkPartial off n desc d) = (s, RErr EUnordered) /\
+  kv_step maxlen false hk jv step s (UWalkPartialClass c off n desc d) = (s, RErr EUnordered).
 Proof. split; reflexivity. Qed.
 
 (** ** The memory backend's two panic sites are unreachable *)
